@@ -1,6 +1,7 @@
 package main
 
 import (
+	"regexp"
 	"flag"
 	"fmt"
 	"os"
@@ -109,6 +110,33 @@ func tablesDumpCmd(args []string) int {
 			trace++
 			w.write(map[string]interface{}{"k": "syscall", "trace": trace, "arch": a, "num": num, "name": name})
 			stats["syscall_entries"]++
+		}
+	}
+
+	// ---- record types from the name side: every name the library's own name table lists ------------------------
+	// (keys of the auditMessageNameToType literal, read from the source file when it is written as one)
+	if src, err := os.ReadFile(filepath.Join(*repo, "auparse", "zaudit_msg_types.go")); err == nil {
+		text := string(src)
+		if i := strings.Index(text, "auditMessageNameToType = map[string]AuditMessageType{"); i >= 0 {
+			block := text[i:]
+			if j := strings.Index(block, "\n}"); j >= 0 {
+				block = block[:j]
+			}
+			for _, m := range regexp.MustCompile(`(?m)^\s*"([^"]+)":\s*AUDIT_`).FindAllStringSubmatch(block, -1) {
+				name := m[1]
+				code, again, againCode := -1, "", -1
+				if t, err := auparse.GetAuditMessageType(name); err == nil {
+					code = int(t)
+					again = t.String()
+					if t2, err := auparse.GetAuditMessageType(again); err == nil {
+						againCode = int(t2)
+					}
+				}
+				trace++
+				w.write(map[string]interface{}{"k": "typename", "trace": trace, "name": name, "code": code, "again": again, "again_code": againCode,
+					"again_is_unknown_form": strings.HasPrefix(again, "UNKNOWN[")})
+				stats["type_names"]++
+			}
 		}
 	}
 
